@@ -117,7 +117,8 @@ fn install_fatal_hook(sim: &Arc<Sim>, sink: FatalSink) {
     let start = std::time::Instant::now();
     sim.set_fatal_hook(Box::new(move |fatal: &Fatal| {
         let rule = fatal_rule(&fatal.kind);
-        let inconclusive = fatal.kind == FatalKind::Budget;
+        // a step budget exhausted while opening a damaged image is the "loops" clause of C17
+        let inconclusive = fatal.kind == FatalKind::Budget && sink.scenario.engine != "corr";
         let path = replay_path(&sink.replay_dir, &sink.scenario, "");
         if !inconclusive {
             write_replay(&path, &sink.scenario, &fatal.sched, &fatal.fault, rule, &fatal.detail);
